@@ -17,6 +17,7 @@ suffix, `junk<k>`, `zz<k>.snp`, `failed-parts`; ids decimal; paths joined by `/`
   reclegacy <entry>...                       the same with `initTSTable` as written
   segsteps <atomic 0|1> <k>                  segment level: step list of `k` segment creations (+ table), joined by `; `
   segrec <entry>...                          `openSegs` of an explicit tree
+  segstatesx <cut> | <step>; <step>; ...     the same for an explicit step list (a recorded trace)
   segstates <atomic 0|1> <k> <cut>           every crash outcome after `cut` steps: `K|P <tree> => <openSegs>` joined by ` ## `
 -/
 
@@ -214,6 +215,22 @@ def segShowStep : C04Seg.Step → String
   | .rmdir p => s!"rmdir {segShowPath p}"
   | .link a b => s!"link {segShowPath a} {segShowPath b}"
 
+def segParsePath (s : String) : Option C04Seg.Path :=
+  if s == "." then some [] else (s.splitOn "/").mapM segParseName
+
+def segParseStep (s : String) : Option C04Seg.Step :=
+  match (s.trimAscii.toString.splitOn " ").filter (· ≠ "") with
+  | ["mkdir", p] => (segParsePath p).map .mkdir
+  | ["create", p] => (segParsePath p).map .create
+  | ["write", p, c] => do pure (.write (← segParsePath p) (← parseToks c))
+  | ["fsync", p] => (segParsePath p).map .fsync
+  | ["close", p] => (segParsePath p).map .close
+  | ["rename", a, b] => do pure (.rename (← segParsePath a) (← segParsePath b))
+  | ["fsyncdir", p] => (segParsePath p).map .fsyncdir
+  | ["unlink", p] => (segParsePath p).map .unlink
+  | ["rmdir", p] => (segParsePath p).map .rmdir
+  | _ => none
+
 def segShowTree (t : C04Seg.Tree) : String :=
   let es := t.map (fun kv =>
     match kv.2 with
@@ -275,6 +292,15 @@ def handle (line : String) : String :=
     match k.toNat?, cut.toNat? with
     | some k, some c =>
       let ts := C04Seg.crashTrees (a == "1") k c
+      " ## ".intercalate ((ts.zip (List.range ts.length)).map (fun ti =>
+        s!"{if ti.2 == 0 then "K" else "P"} {segShowTree ti.1} => {segShowRec (C04Seg.openSegs ti.1)}"))
+    | _, _ => "bad-op"
+  | "segstatesx" :: cut :: _ =>
+    -- every crash outcome after `cut` steps of an explicit step list (a recorded trace)
+    match cut.toNat?, (((line.splitOn "|").getD 1 "").splitOn ";").mapM segParseStep with
+    | some c, some steps =>
+      let st := run ({} : C04Seg.St) (steps.take c)
+      let ts := crashKill st :: C04Seg.powerTrees st
       " ## ".intercalate ((ts.zip (List.range ts.length)).map (fun ti =>
         s!"{if ti.2 == 0 then "K" else "P"} {segShowTree ti.1} => {segShowRec (C04Seg.openSegs ti.1)}"))
     | _, _ => "bad-op"
